@@ -94,6 +94,44 @@ def compile_props(prop_file):
         return out
 
 
+GEN = ROOT + '/gen'
+
+
+def table_proofs(pin_file):
+    """Regenerates gen/Tables.v from the crate source (tools/gentables.py: enums and match tables of operators, marker
+    variables, environment accessors, archive extensions), compiles it, the theorems about it (gen/TableProofs.v) and one
+    property's pin file, and returns coqc's output of the pin file.  These files are not part of the main project: a table
+    that changed must break only the obligations that rest on it."""
+    src = os.environ.get('VERIF_REPO_SRC', '/repo/src')
+    with lock('coq'):
+        p = subprocess.run([sys.executable, ROOT + '/tools/gentables.py', src, GEN + '/Tables.v'], stdout=subprocess.PIPE, stderr=subprocess.PIPE, text=True)
+        if p.returncode != 0:
+            raise BuildError('table translator (tools/gentables.py)', p.stderr[-2000:])
+        flags = ['-q', '-Q', COQ, 'PV', '-Q', GEN, 'PVGen']
+        h = hashlib.sha256()
+        for f in ('Tables.v', 'TableProofs.v'):
+            h.update(open(GEN + '/' + f, 'rb').read())
+        for f in ('Text/ReqParse.vo', 'Text/MarkerDisplay.vo', 'Marker/DnfModel.vo', 'Text/MarkerParse.vo'):
+            h.update(str(os.path.getmtime(COQ + '/' + f)).encode())
+        stamp = GEN + '/.stamp'
+        if not (os.path.exists(GEN + '/TableProofs.vo') and os.path.exists(stamp) and open(stamp).read() == h.hexdigest()):
+            for f in ('Tables', 'TableProofs'):
+                for ext in ('.vo', '.vok', '.vos', '.glob'):
+                    if os.path.exists(GEN + '/' + f + ext):
+                        os.remove(GEN + '/' + f + ext)
+            if os.path.exists(stamp):
+                os.remove(stamp)
+            for f in ('Tables.v', 'TableProofs.v'):
+                rc, out = _run(['timeout', '900', 'coqc'] + flags + [f], cwd=GEN)
+                if rc != 0:
+                    raise BuildError('table theorems: gen/' + f, out)
+            open(stamp, 'w').write(h.hexdigest())
+        rc, out = _run(['timeout', '900', 'coqc'] + flags + [pin_file], cwd=GEN)
+        if rc != 0:
+            raise BuildError('table theorems: gen/' + pin_file, out)
+        return out
+
+
 def extract_and_driver():
     """extraction (run from the output directory: 8.16 has no output-directory option) + ocamlopt"""
     with lock('extract'):
